@@ -295,6 +295,18 @@ func Judge(cs Case, res Result) []Failure {
 					add("C01", "advertised", key, "%s negotiated although the current features list does not offer it", e.String(cfg))
 				}
 			}
+			if e.Data != "" {
+				// the data handed to Negotiate: on the initiating side what Parse of this same feature
+				// returned for the current list (Session.features, keyed by namespace, cleared on a
+				// restart); nil for the unconditional STARTTLS attempt and on the receiving side
+				want := "own"
+				if server || forced {
+					want = "nil"
+				}
+				if e.Data != want {
+					add("C01", "advertised", "negotiate-data:"+e.Data, "%s was handed %s data, expected %s (the value its own Parse returned for the current features list / nil)", e.String(cfg), e.Data, want)
+				}
+			}
 			if !b.Eligible(e.St) {
 				key := "at-selection"
 				switch {
